@@ -117,6 +117,25 @@ def build_T11f(tree):
                                  [('frame_offset', 'int')], {'self._first_frame_offset': ('int', 'firstFrameOffset')},
                                  doc='`read_frame_raw`: absolute position the reader seeks to for a frame'))
     shas.append(span_sha([fo, sk]))
+    # ImageFileReader.__init__: which argument types are an open file object, which a path; everything else is a TypeError
+    fn = find_func(tree, 'ImageFileReader.__init__')
+    top = _one([n for n in fn.body if isinstance(n, ast.If) and ast.unparse(n.test).startswith('isinstance(filename,')], 'reader constructor dispatch')
+    if not (len(top.orelse) == 1 and isinstance(top.orelse[0], ast.If) and len(top.orelse[0].orelse) == 1
+            and isinstance(top.orelse[0].orelse[0], ast.Raise) and 'TypeError' in ast.unparse(top.orelse[0].orelse[0])):
+        raise Unsupported('ImageFileReader.__init__: dispatch on the type of filename changed shape')
+
+    def tn(call):
+        if not (isinstance(call, ast.Call) and ast.unparse(call.func) == 'isinstance' and len(call.args) == 2 and ast.unparse(call.args[0]) == 'filename'):
+            raise Unsupported('ImageFileReader.__init__: dispatch is no longer isinstance(filename, ...)')
+        t = call.args[1]
+        return [ast.unparse(e) for e in t.elts] if isinstance(t, ast.Tuple) else [ast.unparse(t)]
+    fo, pa = tn(top.test), tn(top.orelse[0].test)
+    if 'self._filename = Path(filename)' not in [ast.unparse(x) for x in top.orelse[0].body]:
+        raise Unsupported('ImageFileReader.__init__: a path argument is no longer stored as Path(filename)')
+    texts.append('/-- `ImageFileReader.__init__`: types taken as an open file object; types taken as a path (anything else: TypeError) -/\n'
+                 'def readerFileObjectTypes : List String := [' + ', '.join(_q(x) for x in fo) + ']\n'
+                 'def readerPathTypes : List String := [' + ', '.join(_q(x) for x in pa) + ']')
+    shas.append(hashlib.sha256(repr((fo, pa)).encode()).hexdigest())
     # the conversion applied to the index by read_frame_raw / read_frame before anything else
     convs = []
     for q in ('ImageFileReader.read_frame_raw', 'ImageFileReader.read_frame'):
@@ -256,6 +275,30 @@ def build_T1c(tree):
                  'expression it is fed from (attribute of the transform resolved to its assignment in `__init__`) -/\n'
                  'def transformDecodeArgs : List (String × String) :=\n  [' + ',\n   '.join(f'({_q(a)}, {_q(b)})' for a, b in rows) + ']')
     shas.append(hashlib.sha256(repr(rows).encode()).hexdigest())
+    # Image.from_file, lazy branch: which argument types are wrapped and which are handed to the reader as they are
+    fn = find_func(tree, '_Image.from_file')
+    lz = _one([n for n in fn.body if isinstance(n, ast.If) and ast.unparse(n.test) == 'lazy_frame_retrieval'], 'from_file lazy test')
+    disp = lz.body[0]
+
+    def type_names(call):
+        if not (isinstance(call, ast.Call) and ast.unparse(call.func) == 'isinstance' and len(call.args) == 2 and ast.unparse(call.args[0]) == 'fp'):
+            raise Unsupported('from_file: dispatch is no longer isinstance(fp, ...)')
+        t = call.args[1]
+        return [ast.unparse(e) for e in t.elts] if isinstance(t, ast.Tuple) else [ast.unparse(t)]
+    if not (isinstance(disp, ast.If) and [ast.unparse(x) for x in disp.body] == ['fp = DicomBytesIO(fp)'] and len(disp.orelse) == 1
+            and isinstance(disp.orelse[0], ast.If) and isinstance(disp.orelse[0].test, ast.UnaryOp) and isinstance(disp.orelse[0].test.op, ast.Not)
+            and [ast.unparse(x) for x in disp.orelse[0].body] == ['fp = DicomIO(fp)'] and not disp.orelse[0].orelse):
+        raise Unsupported('from_file: the lazy dispatch on the type of fp changed shape')
+    if [ast.unparse(x) for x in lz.body[1:]] != ['reader = ImageFileReader(fp)', 'metadata = reader._change_metadata_ownership()',
+                                               'image = cls.from_dataset(metadata, copy=False)', 'image._file_reader = reader']:
+        raise Unsupported('from_file: the lazy branch no longer builds the image around an ImageFileReader(fp)')
+    if [ast.unparse(x) for x in lz.orelse] != ['image = cls.from_dataset(_wrapped_dcmread(fp), copy=False)']:
+        raise Unsupported('from_file: the eager branch changed')
+    a, b = type_names(disp.test), type_names(disp.orelse[0].test.operand)
+    texts.append('/-- `Image.from_file(lazy_frame_retrieval=True)`: types wrapped in DicomBytesIO; types handed to the reader unchanged '
+                 '(everything else is wrapped in DicomIO) -/\ndef fromFileBytesTypes : List String := [' + ', '.join(_q(x) for x in a)
+                 + ']\ndef fromFilePassThroughTypes : List String := [' + ', '.join(_q(x) for x in b) + ']')
+    shas.append(hashlib.sha256(repr((a, b)).encode()).hexdigest())
     # the conversion applied to the frame number before it is compared (accepts exactly the integer types)
     fn = find_func(tree, '_Image._standardize_frame_index')
     body = [s for s in fn.body if not (isinstance(s, ast.Expr) and isinstance(s.value, ast.Constant))]
